@@ -783,7 +783,8 @@ fn upkeep_part(ctx: &Ctx, res: &mut PartResult, depth: usize) {
 }
 
 // ------------------------------------------------------------------ IPv6 listener, IPv6 peer (::1)
-const ENTRIES6: [&str; 10] = ["::1", "::1/128", "::/64", "::/8", "fe80::/10", "2001:db8::/32", "127.0.0.1", "0.0.0.0/8", "0.0.0.0/0", "::/0"];
+// (plain IPv6 hosts other than the peer, near it and far from it: a plain address is one host, whatever the family)
+const ENTRIES6: [&str; 13] = ["::1", "::1/128", "::/64", "::/8", "fe80::/10", "2001:db8::/32", "127.0.0.1", "0.0.0.0/8", "0.0.0.0/0", "::/0", "::2", "0:0:ffff::10", "::3/128"];
 
 /// independent CIDR arithmetic for an IPv6 peer; an IPv4 network never contains an IPv6 peer
 fn in_net6(entry: &str, peer: std::net::Ipv6Addr) -> bool {
